@@ -27,7 +27,9 @@ import (
 	"github.com/imroc/req/v3/verifharness/hk"
 )
 
-func main() { hk.Main("C13", runC13, nil) }
+func main() {
+	hk.Main("C13", runC13, map[string]hk.Gosyncer{"DumpTables": syncDumpTables})
+}
 
 func runC13(r *hk.Run) {
 	r.Header = "From ReqV Require Import Model.C13Run.\nFrom Coq Require Import Uint63."
